@@ -400,6 +400,16 @@ def _print_parse(facts, res, disp_path, regex_bodies, label):
             res.violation("P3", "%s|print-parse-mismatch:%s" % (label, "".join(seps)),
                           "Display for %s prints fields %s separated by %s; no parser regex has that group order and those separators (%s)" % (
                               label, f2, seps, [(nm, sp) for _, _, nm, sp, _ in rshapes]), db.loc())
+    # every decimal index the printer can emit must be accepted: the index group matches any non-empty digit string
+    for nm, rx, names, sp, rest in rshapes:
+        for gname, gpat in re.findall(r"\(\?P<(\w+)>([^)]*)\)", rx):
+            if gname == "index":
+                ok_ = gpat in ("\\d+", "[0-9]+", "\\d{1,10}", "[0-9]{1,10}")
+                res.instance("P3", "%s regex %s: index group %r accepts every decimal index: %s" % (label, nm, gpat, ok_), db.loc())
+                if not ok_:
+                    res.violation("P3", "%s|index-group-class:%s" % (label, nm),
+                                  "parser regex %s of %s matches the index with %r: indices the printer emits (any decimal number, e.g. 10 or 101) are rejected or, "
+                                  "since the regex is unanchored, truncated" % (nm, label, gpat), db.loc())
     for nm, rx, names, sp, rest in rshapes:
         f2s = [[fieldmap.get(f, f) for f in fields] for fields, _, _, _ in shapes]
         if names not in f2s:
